@@ -202,6 +202,15 @@ def rule_reply_shape(ctx):
     b = ctx.one([x for x in pt.builders() if x.name == "OffsetRequest"], "OffsetRequest builder")
     fi = ctx.fn(f"{FETCHER}._proc_offset_request")
     site = f"{fi.path}:{fi.node.lineno} {fi.qualname}"
+    # an offset is taken only from an entry whose error code is NoError (facts on every path to the store)
+    from ..rulekit import must_facts
+    co = ctx.cfg(fi)
+    mfo = must_facts(co)
+    sts = [n for n in co.nodes if n.kind == "store" and isinstance(n.ast, ast.Subscript) and unparse(n.ast.value) == "res_offsets"]
+    ctx.anchor(len(sts) >= 2, "res_offsets[partition] = ... stores in _proc_offset_request")
+    for n in sts:
+        ctx.ob(R, fi, n, ("error_type", "is", "Errors.NoError") in mfo[n] or ("error_type", "==", "Errors.NoError") in mfo[n],
+               "an offset is recorded from a ListOffsets entry whose error code was not found to be NoError", text="offset-only-noerror:" + unparse(n.stmt.value)[:30])
     for rc in pt.builder_classes(b):
         v = pt.const(rc, "API_VERSION")
         resp = pt.response_type(rc)
